@@ -407,6 +407,9 @@ def justify(facts, s):
             fcs = [models._find_call(a) for a in arms]
             if arms and all(fc is not None and fc[2] == s_ and ord(fc[1]) < 128 for fc in fcs):
                 return "J13", "slice of the string at the position of one of %s found in it" % sorted(set(fc[1] for fc in fcs))
+        sk = models._skip_leading(("call", models.STR_INDEX, (strip(args[0]), rg), 0))
+        if sk is not None:
+            return "J13", "slice from the first byte that is not the one-byte char %r: every byte before it is that char" % sk[0]
         # &tail[1..] where (head, tail) = s.split_at(pos), pos the position of a one-byte char found in s: tail starts with it
         if rg[0] == "agg" and rg[1][0] == "adt" and rg[1][1] == "std::ops::RangeFrom" and len(rg[2]) == 1 and rg[2][0] == ("const", 1):
             tl = strip(args[0])
